@@ -105,6 +105,17 @@ def build_alphabet(darsia):
                                                 solver=darsia.Jacobi(maxiter=3)))
         return T((IMG_A if which == "A" else IMG_A[::-1]).copy())
 
+    def tvd_object_x0():
+        # one TVD object constructed with an initial guess (image and split variables) for its iteration
+        def make():
+            r = np.random.default_rng(77)
+            d0 = 0.05 * r.standard_normal((*IMG_A.shape, 2))
+            b0 = 0.05 * r.standard_normal((*IMG_A.shape, 2))
+            return darsia.TVD(method="heterogeneous bregman", weight=0.3, omega=1.0, max_num_iter=3, eps=1e-12, dim=2, x0=(IMG_A.copy(), d0, b0))
+
+        T = shared("TVDX0", make)
+        return T(IMG_A.copy())
+
     def anderson(seed, n):
         A = shared("AA", lambda: darsia.AndersonAcceleration(dimension=None, depth=2, restart=3))
         r = np.random.default_rng(seed)
@@ -201,6 +212,7 @@ def build_alphabet(darsia):
         "tvd_chambolle": lambda: tvd(0.2, "chambolle"),
         "tvd_het": lambda: tvd(0.3, "heterogeneous bregman"),
         "tvd_obj_A": lambda: tvd_object("A"),
+        "tvd_obj_x0": tvd_object_x0,
         "tvd_obj_B": lambda: tvd_object("B"),
         "aa_seq1": lambda: anderson(1, 8),
         "aa_d2r3_head": lambda: anderson_window(2, 3, 0, 3, 11),
@@ -253,7 +265,7 @@ LETTERS = [
     "aa_d2r3_head", "aa_d2r3_tail", "aa_d3r2_head", "aa_d3r2_tail", "w_adaptive_homog_A", "w_adaptive_homog_B", "w_newton_aa_restart_A", "w_newton_aa_restart_B",
     "mg2_small", "mg2_regular", "w_bregman_L2_A", "w_bregman_L2_B", "w_bregman_L2fr_A", "w_bregman_L2fr_B", "w_bregman_amg_custom",
     "w_bregman_big_A", "w_bregman_big_B", "w_bregman_big_aa_A", "w_bregman_big_aa_B", "w_newton_big_A", "w_newton_big_B",
-    "tvd_obj_A", "tvd_obj_B",
+    "tvd_obj_A", "tvd_obj_B", "tvd_obj_x0",
 ]
 # letters that can share state with each other (same object or same module-level default)
 GROUPS = {
@@ -265,6 +277,7 @@ GROUPS = {
     "h1_mg": ["h1_mg_mu1", "h1_mg_mu5"],
     "sb_explicit": ["sb_explicit"],
     "tvd_object": ["tvd_obj_A", "tvd_obj_B"],
+    "tvd_object_x0": ["tvd_obj_x0"],
     "tvd": ["tvd_chambolle"],
     "anderson": ["aa_seq1", "aa_seq2"],
     "w_newton": ["w_newton_A", "w_newton_B"],
